@@ -124,8 +124,31 @@ class UniHistory(Leg):
                     k == "KUniverse" and u in snap["uverts"][u] for u, k in enumerate(snap["kind"])))
 
 
+class SmallScope(UniHistory):
+    """thorough tier only: the complete space of short histories over a fixed pool"""
+    name = "smallscope"
+    exhaustive = True
+    quick_n = 0
+    thorough_n = 1
+    shard = 400
+    rule = ("EXHAUSTIVE for this bounded space (thorough tier): every history of length <= 4 over {add_vertex, remove_vertex, "
+            "add_to_universe, remove_from_universe} x {universe 0} x {the universe itself, vertex 2, vertex 3}, plus "
+            "Vertex(universes=[0]) and Vertex(universes=[0, 0])")
+    SEED = [["NU", [], None], ["NV", False, [], []], ["NV", False, [], []]]
+
+    def generate(self, rng, n):
+        if n <= 0:
+            return
+        al = []
+        for v in (0, 2, 3):
+            al += [["UAV", 0, v], ["URV", 0, v], ["VAU", v, 0], ["VRU", v, 0]]
+        al += [["NV", False, [0], []], ["NV", True, [0, 0], []]]
+        for ops in H.small_scope(self.SEED, al, 4):
+            yield {"ops": ops}
+
+
 class C02(Prop):
     pid = "C02"
-    legs = [UniHistory()]
+    legs = [UniHistory(), SmallScope()]
     assumptions = ["histories of well-typed calls: only vertex-like objects (Vertex, subclasses, Universe) are added to universes",
                    "objects compare by identity (no __eq__/__hash__ overrides)"]
